@@ -404,6 +404,31 @@ func jobC02(c *rt.Ctx) {
 			}
 		}
 	}
+	// (5b) the context-length x message-length PLANE: every context length 1..255 with every message
+	// length 0..320 (thorough: 0..1100) under Ed25519ctx - a buffer sized for "short context and short
+	// message" has its corner inside the plane, away from the lines the one-dimensional sweeps follow
+	c.Require("ctx-msg-plane")
+	if c.Config == "default" || c.Config == "" || c.Thorough() {
+		maxM := 320
+		if c.Thorough() {
+			maxM = 1100
+		}
+		for cl := 1; cl <= 255; cl++ {
+			for ml0 := 0; ml0 <= maxM; ml0 += 16 {
+				if !c.Take() {
+					continue
+				}
+				c.Distinct(fmt.Sprintf("plane %d %d", cl, ml0), true)
+				sv := signVariant{ref.Ctx, strings.Repeat("q", cl-1) + string([]byte{byte(cl)})}
+				for ml := ml0; ml < ml0+16 && ml <= maxM; ml++ {
+					signAndCompare("ctx-msg-plane", "context x message plane", seedOf((cl+ml)%5), msgLen(ml, cl), sv)
+				}
+			}
+		}
+	} else if c.Take() {
+		c.Class("ctx-msg-plane")
+		c.Distinct("plane skipped in this configuration (quick tier)", true)
+	}
 	// (6) held results: 70 signatures (and the keys of 70 NewKeyFromSeed calls) kept by the caller, each then
 	// used as the caller's own buffer: every other one still reads as the RFC 8032 value
 	c.Require("held-results")
